@@ -31,4 +31,19 @@ CHECKS.update({
         note="uom is rebuilt under four feature sets; the harness itself links std; rejection of mixed-base operands without autoconvert is a C02 probe",
         technique="Lean 4 proof (on/off operator tables agree) + four-configuration transcript comparison"),
 })
+CHECKS.update({
+    'C08': dict(
+        text="Lean 4 theorems: with rational storage both branches of to_base/from_base equal the conversion formula, construct-then-read and read-then-construct are the identity, two offset-free units differ by the ratio of their coefficients; with integer storage the result is the exact rational truncated toward zero (truncation characterised); big-type powi is the integer power. Exact correspondence for BigRational, BigInt, BigUint, Rational64, i32, i64, u32, u64, isize over 82 units × three base-unit sets, including the panic branch (division by a zero ratio, unsigned underflow)",
+        note="published coefficients/constants/powers are inputs; fixed-width cases with possibly overflowing intermediates are counted but not judged",
+        technique="Lean 4 proof (field identities over ℚ, truncation lemma) + exact correspondence check"),
+    'C09': dict(
+        text="Kernel-decided table obligations on the table regenerated from src/si every run (offsets exist only on °C (1, 273.15) and °F (5/9, 459.67) of thermodynamic_temperature; temperature_interval declares the same unit names with equal coefficients and no offset; dimensions/kinds) + Lean theorems for exact storage and any base factor: 0 °C = 273.15 K = 32 °F, point ± interval (same and mixed base units), interval linearity, offset applied exactly once. Correspondence: all 24+24 units bit-exact for f32/f64, exact types, TT±TI/TI+TT forms over same and mixed base sets",
+        note="type-level exclusions (no TT+TT, no Neg) are C02 probes; float bounds as C03",
+        technique="Lean 4 proof (decide +kernel on generated table + field identities) + correspondence check"),
+    'C20': dict(
+        category='proof',
+        text="KNOWN FINDING F5: the property is false of the code. Lean 4 theorems give the exact shape of the defect (stored = real conversion of |z| with zero imaginary part, for every value), refute the full statement by a kernel-evaluated witness (3+4i), and prove the part that holds (non-negative reals). Correspondence: the implementation must match the defect model bit-for-bit; the property oracle fails exactly with the F5 signature, anything else is a new violation",
+        note="Complex::norm (libm) is supplied by the harness; the finding is keyed by the call site in known_findings.json",
+        technique="Lean 4 proof (defect characterisation + refutation witness) + correspondence check against the defect model"),
+})
 NOT_APPLICABLE = {}
